@@ -221,6 +221,24 @@ theorem c08_gcm_roundtrip_aes (dst dst' pt key nonce ad : Bytes)
     rw [h1] at h3; injection h3
   exact ⟨ct, h1, hct, by rw [hct, gcm_seal_length key nonce pt ad hk]; rfl, h2⟩
 
+/-- What the HISTORY stream of the tie instantiates (header `hist`: the harness keeps the key /
+secret, iv / nonce, additional data and dst of all calls of a case in the SAME backing arrays
+and overwrites them in place between the calls): in the model a call has no memory — the
+answer to each line is a function of that line alone, whatever was called before with whatever
+was in those buffers, and equals the answer in the ordinary mode.  (True by construction — the
+model's entry points are pure functions — and recorded here because it is exactly what the
+call-by-call comparison then demands of the real code: no cipher, schedule, iv or credential
+retained BY REFERENCE from an earlier call.) -/
+theorem c08_history_is_memoryless (pre ops : List String) :
+    runCase ["hist"] ops = "ok" :: ops.map (fun l => step (Golib.Proto.toks l)) ∧
+    runCase ["hist"] ops = runCase ["x"] ops ∧
+    (runCase ["hist"] (pre ++ ops)).drop (1 + pre.length) = (runCase ["hist"] ops).drop 1 := by
+  refine ⟨rfl, rfl, ?_⟩
+  simp only [runCase, List.map_append, List.drop_succ_cons, List.drop_zero]
+  rw [Nat.add_comm, List.drop_succ_cons]
+  have : pre.length = (pre.map fun l => step (Golib.Proto.toks l)).length := by simp
+  rw [this, List.drop_left]
+
 /-- The facts the model hard-codes, against `Golib/Gen/FactsC08.lean`, which the go/ast
 extractor regenerates from `cryptz/aes.go` on every run: the constants, the size of the
 padding table, the bound of the `init()` loop, and that the model's table is what that loop
